@@ -13,34 +13,218 @@ use crate::l2_shift::*;
 use crate::l3_divlimb::*;
 verus! {
 
+// core integer method without a vstd specification (assumed; belongs next to the other core specs of speclib.rs)
+pub assume_specification [u32::div_ceil] (a: u32, b: u32) -> (r: u32)
+    requires b != 0
+    ensures r as int == (a as int + b as int - 1) / (b as int);
+
+// ---------------------------------------------------------------- limb-shift lemmas (shl_limb_vartime / shr_limb_vartime)
+
+/// `(a << l) | (b >> (64-l))` has disjoint bit ranges, so the OR is a sum
+proof fn lemma_or_is_add(a: u64, b: u64, l: u32)
+    requires 0 < l < 64
+    ensures ((a << l) | (b >> ((64 - l) as u32))) as int == (a << l) as int + (b >> ((64 - l) as u32)) as int
+{
+    let r = (64 - l) as u32;
+    let x = a << l; let y = b >> r;
+    assert(x & y == 0) by (bit_vector) requires 0 < l < 64, r == (64 - l) as u32, x == a << l, y == b >> r;
+    assert((x | y) as int == x as int + y as int) by (bit_vector) requires x & y == 0;
+}
+
+/// t = s shifted left by l bits inside n limbs; the bits shifted out of the top limb are the carry
+proof fn lemma_shl_limbs(s: Seq<Limb>, t: Seq<Limb>, n: nat, l: u32)
+    requires 0 < l < 64, n >= 1, t[0].0 == s[0].0 << l,
+        forall|j: int| 1 <= j < n ==> t[j].0 == (s[j].0 << l) | (s[j - 1].0 >> ((64 - l) as u32)),
+    ensures val(t, n) + (s[n - 1].0 >> ((64 - l) as u32)) as int * bp(n) == val(s, n) * p2(l as nat),
+    decreases n
+{
+    let r = (64 - l) as u32;
+    let ps = p2(l as nat);
+    lemma_bp1();
+    if n == 1 {
+        lemma_limb_shl_split(s[0].0, l);
+        assert(val(t, 1) == val(t, 0) + t[0].0 as int * bp(0));
+        assert(val(s, 1) == val(s, 0) + s[0].0 as int * bp(0));
+        assert(val(t, 0) == 0 && val(s, 0) == 0);
+    } else {
+        let m = (n - 1) as nat;
+        lemma_shl_limbs(s, t, m, l);
+        lemma_limb_shl_split(s[m as int].0, l);
+        lemma_or_is_add(s[m as int].0, s[m - 1].0, l);
+        lemma_bp_succ(m);
+        let lo = (s[m as int].0 << l) as int; let hi = (s[m as int].0 >> r) as int; let hp = (s[m - 1].0 >> r) as int;
+        let pm = bp(m); let sm = s[m as int].0 as int; let tm = t[m as int].0 as int;
+        assert(tm == lo + hp);
+        assert(val(t, n) == val(t, m) + tm * pm);
+        assert(val(s, n) == val(s, m) + sm * pm);
+        assert(tm * pm + hi * (B() * pm) == hp * pm + (sm * ps) * pm) by (nonlinear_arith)
+            requires tm == lo + hp, lo + hi * B() == sm * ps;
+        assert((val(s, m) + sm * pm) * ps == val(s, m) * ps + (sm * ps) * pm) by (nonlinear_arith);
+    }
+}
+
+/// t[j] = (s[j] >> r) | (s[j+1] << (64-r)) for j < m: prefix relation
+proof fn lemma_shr_limbs(s: Seq<Limb>, t: Seq<Limb>, m: nat, r: u32)
+    requires 0 < r < 64,
+        forall|j: int| 0 <= j < m ==> t[j].0 == (s[j].0 >> r) | (s[j + 1].0 << ((64 - r) as u32)),
+    ensures p2(r as nat) * val(t, m) + p2(r as nat) * (s[m as int].0 >> r) as int * bp(m)
+            + (s[0].0 as int - p2(r as nat) * (s[0].0 >> r) as int) == val(s, m + 1),
+    decreases m
+{
+    let l = (64 - r) as u32;
+    let pr = p2(r as nat);
+    lemma_bp1();
+    if m == 0 {
+        assert(val(s, 1) == val(s, 0) + s[0].0 as int * bp(0));
+        assert(val(s, 0) == 0 && val(t, 0) == 0);
+        let h0 = (s[0].0 >> r) as int;
+        assert(pr * 0 + pr * h0 * 1 + (s[0].0 as int - pr * h0) == s[0].0 as int) by (nonlinear_arith);
+    } else {
+        let k = (m - 1) as nat;
+        lemma_shr_limbs(s, t, k, r);
+        let a = s[k as int].0; let b = s[m as int].0;
+        lemma_or_is_add(b, a, l);
+        assert((b << l) | (a >> r) == (a >> r) | (b << l)) by (bit_vector);
+        lemma_limb_shl_split(b, l);
+        lemma_pow2_adds(r as nat, l as nat);
+        lemma_pow2_64();
+        lemma_bp_succ(k);
+        let pl = p2(l as nat);
+        let ha = (a >> r) as int; let hb = (b >> r) as int; let lb = (b << l) as int;
+        let tk = t[k as int].0 as int; let pk = bp(k); let bi = b as int;
+        assert(tk == ha + lb);
+        assert(pr * pl == B());
+        assert(lb + hb * B() == bi * pl);
+        // pr * tk == pr*ha + B*(b - pr*hb)
+        assert(pr * tk == pr * ha + B() * (bi - pr * hb)) by (nonlinear_arith)
+            requires tk == ha + lb, lb + hb * B() == bi * pl, pr * pl == B();
+        assert(val(t, m) == val(t, k) + tk * pk);
+        assert(val(s, m + 1) == val(s, m) + bi * bp(m));
+        assert(pr * (val(t, k) + tk * pk) + pr * hb * (B() * pk) == pr * val(t, k) + pr * ha * pk + bi * (B() * pk)) by (nonlinear_arith)
+            requires pr * tk == pr * ha + B() * (bi - pr * hb);
+    }
+}
+
 //@@ subst \b(Self|Uint)::(ZERO|ONE|MAX|BITS|LOG2_BITS)\b(?!\() => \1::\2()
 //@@ subst \bUint::<(\w+)>::(ZERO|ONE|MAX|BITS)\b(?!\() => Uint::<\1>::\2()
-//@@ fn src/uint/div.rs | impl<const LIMBS: usize> Uint<LIMBS> | shl_limb_vartime | stub | props C02 C11
+//@@ fn src/uint/div.rs | impl<const LIMBS: usize> Uint<LIMBS> | shl_limb_vartime | body | props C02 C11
 impl<const LIMBS: usize> Uint<LIMBS> {
-#[verifier::external_body]
 pub const fn shl_limb_vartime(&self, shift: u32, limbs_num: usize) -> (ret__: (Self, Limb))
 //@+
     requires shift < 64, 1 <= limbs_num <= LIMBS
     ensures val(ret__.0.limbs@, limbs_num as nat) + ret__.1.0 as int * bp(limbs_num as nat) == val(self.limbs@, limbs_num as nat) * p2(shift as nat),
-        forall|k: int| limbs_num <= k < LIMBS ==> ret__.0.limbs@[k] == (if shift == 0 { self.limbs@[k] } else { Limb(0) })
+        forall|k: int| limbs_num <= k < LIMBS ==> ret__.0.limbs@[k] == (if shift == 0 { self.limbs@[k] } else { Limb(0) }),
+        val(ret__.0.limbs@, limbs_num as nat) == (val(self.limbs@, limbs_num as nat) * p2(shift as nat)) % bp(limbs_num as nat),
+        ret__.1.0 as int == (val(self.limbs@, limbs_num as nat) * p2(shift as nat)) / bp(limbs_num as nat),
+        shift == 0 ==> ret__.0 == *self && ret__.1.0 == 0,
+        shift > 0 ==> ret__.0.limbs@[0].0 == self.limbs@[0].0 << shift && ret__.1.0 == self.limbs@[limbs_num - 1].0 >> ((64 - shift) as u32)
 //@-
 {
-    unimplemented!()
-}
+//@+
+    let ghost n = limbs_num as nat;
+    let ghost xs = val(self.limbs@, n) * p2(shift as nat);
+    proof { lemma_val_bound(self.limbs@, n); lemma_pow2_64(); }
+//@-
+        if shift == 0 {
+//@+
+    proof {
+        assert(val(self.limbs@, n) * 1 == val(self.limbs@, n)) by (nonlinear_arith);
+        assert(0 * bp(n) == 0) by (nonlinear_arith);
+        lemma_fundamental_div_mod_converse(xs, bp(n), 0, val(self.limbs@, n));
+    }
+//@-
+            return (*self, Limb::ZERO);
+        }
+        let mut limbs = [Limb::ZERO; LIMBS];
+        let lshift = shift;
+        let rshift = Limb::BITS - shift;
+        let carry = self.limbs[limbs_num - 1].0 >> rshift;
+        let mut i = limbs_num - 1;
+        while i > 0
+//@+
+    invariant 0 <= i <= limbs_num - 1, 1 <= limbs_num <= LIMBS, 0 < shift < 64, lshift == shift, rshift == 64 - shift,
+        forall|j: int| i < j < limbs_num ==> limbs@[j].0 == (self.limbs@[j].0 << shift) | (self.limbs@[j - 1].0 >> rshift),
+        forall|j: int| 0 <= j < LIMBS && !(i < j < limbs_num) ==> limbs@[j] == Limb(0),
+    decreases i,
+//@-
+{
+            limbs[i] = Limb((self.limbs[i].0 << lshift) | (self.limbs[i - 1].0 >> rshift));
+            i -= 1;
+        }
+        limbs[0] = Limb(self.limbs[0].0 << lshift);
+//@+
+    proof {
+        lemma_shl_limbs(self.limbs@, limbs@, n, shift);
+        lemma_val_bound(limbs@, n);
+        lemma_fundamental_div_mod_converse(xs, bp(n), carry as int, val(limbs@, n));
+    }
+//@-
+        (Uint::<LIMBS>::new(limbs), Limb(carry))
+    }
 }
 //@@ end
-//@@ fn src/uint/div.rs | impl<const LIMBS: usize> Uint<LIMBS> | shr_limb_vartime | stub | props C02 C11
+//@@ fn src/uint/div.rs | impl<const LIMBS: usize> Uint<LIMBS> | shr_limb_vartime | body | props C02 C11
 impl<const LIMBS: usize> Uint<LIMBS> {
-#[verifier::external_body]
 pub const fn shr_limb_vartime(&self, shift: u32, limbs_num: usize) -> (ret__: Self)
 //@+
     requires shift < 64, 1 <= limbs_num <= LIMBS
     ensures val(ret__.limbs@, limbs_num as nat) == val(self.limbs@, limbs_num as nat) / p2(shift as nat),
-        forall|k: int| limbs_num <= k < LIMBS ==> ret__.limbs@[k] == (if shift == 0 { self.limbs@[k] } else { Limb(0) })
+        forall|k: int| limbs_num <= k < LIMBS ==> ret__.limbs@[k] == (if shift == 0 { self.limbs@[k] } else { Limb(0) }),
+        (forall|k: int| limbs_num <= k < LIMBS ==> self.limbs@[k].0 == 0) ==> ret__.v() == val(self.limbs@, limbs_num as nat) / p2(shift as nat)
 //@-
 {
-    unimplemented!()
-}
+//@+
+    let ghost n = limbs_num as nat;
+    proof { lemma_pow2_64(); }
+//@-
+        if shift == 0 {
+//@+
+    proof {
+        assert(val(self.limbs@, n) / 1 == val(self.limbs@, n)) by (nonlinear_arith);
+        if forall|k: int| limbs_num <= k < LIMBS ==> self.limbs@[k].0 == 0 { lemma_val_hi_zero(self.limbs@, n, LIMBS as nat); }
+    }
+//@-
+            return *self;
+        }
+        let mut limbs = [Limb::ZERO; LIMBS];
+        let lshift = Limb::BITS - shift;
+        let rshift = shift;
+        let mut i = 0;
+        while i < limbs_num - 1
+//@+
+    invariant 0 <= i <= limbs_num - 1, 1 <= limbs_num <= LIMBS, 0 < shift < 64, rshift == shift, lshift == 64 - shift,
+        forall|j: int| 0 <= j < i ==> limbs@[j].0 == (self.limbs@[j].0 >> shift) | (self.limbs@[j + 1].0 << lshift),
+        forall|j: int| i <= j < LIMBS ==> limbs@[j] == Limb(0),
+    decreases limbs_num - 1 - i,
+//@-
+{
+            limbs[i] = Limb((self.limbs[i].0 >> rshift) | (self.limbs[i + 1].0 << lshift));
+            i += 1;
+        }
+        limbs[limbs_num - 1] = Limb(self.limbs[limbs_num - 1].0 >> rshift);
+//@+
+    proof {
+        let m = (n - 1) as nat;
+        let pr = p2(shift as nat);
+        let s0 = self.limbs@[0].0;
+        let h0 = (s0 >> shift) as int;
+        let hm = (self.limbs@[m as int].0 >> shift) as int;
+        lemma_shr_limbs(self.limbs@, limbs@, m, shift);
+        assert(val(limbs@, n) == val(limbs@, m) + hm * bp(m));
+        assert(pr * (val(limbs@, m) + hm * bp(m)) == pr * val(limbs@, m) + pr * hm * bp(m)) by (nonlinear_arith);
+        lemma_u64_shr_div(s0, shift);
+        lemma_pow2_pos(shift as nat);
+        lemma_fundamental_div_mod(s0 as int, pr);
+        lemma_mod_bound(s0 as int, pr);
+        let rem0 = s0 as int - pr * h0;
+        assert(val(self.limbs@, n) == val(limbs@, n) * pr + rem0) by (nonlinear_arith)
+            requires pr * val(limbs@, n) + rem0 == val(self.limbs@, n);
+        lemma_fundamental_div_mod_converse(val(self.limbs@, n), pr, val(limbs@, n), rem0);
+        lemma_val_hi_zero(limbs@, n, LIMBS as nat);
+    }
+//@-
+        Uint::<LIMBS>::new(limbs)
+    }
 }
 //@@ end
 //@@ fn src/uint/div.rs | impl<const LIMBS: usize> Uint<LIMBS> | div_rem_vartime | stub | props C02 C11 C15
@@ -53,45 +237,6 @@ pub const fn div_rem_vartime<const RHS_LIMBS: usize>(
 //@+
     requires 1 <= LIMBS < 0x400_0000, 1 <= RHS_LIMBS < 0x400_0000, rhs.0.v() != 0
     ensures ret__.0.v() * rhs.0.v() + ret__.1.v() == self.v(), 0 <= ret__.1.v() < rhs.0.v()
-//@-
-{
-    unimplemented!()
-}
-}
-//@@ end
-//@@ fn src/uint/div.rs | impl<const LIMBS: usize> Uint<LIMBS> | rem_vartime | stub | props C02 C11 C15
-impl<const LIMBS: usize> Uint<LIMBS> {
-#[verifier::external_body]
-pub const fn rem_vartime(&self, rhs: &NonZero<Self>) -> (ret__: Self)
-//@+
-    requires 1 <= LIMBS < 0x400_0000, rhs.0.v() != 0
-    ensures ret__.v() == self.v() % rhs.0.v()
-//@-
-{
-    unimplemented!()
-}
-}
-//@@ end
-//@@ fn src/uint/div.rs | impl<const LIMBS: usize> Uint<LIMBS> | rem_wide_vartime | stub | props C02 C11
-impl<const LIMBS: usize> Uint<LIMBS> {
-#[verifier::external_body]
-pub const fn rem_wide_vartime(lower_upper: (Self, Self), rhs: &NonZero<Self>) -> (ret__: Self)
-//@+
-    requires 1 <= LIMBS < 0x400_0000, rhs.0.v() != 0
-    ensures ret__.v() == (lower_upper.0.v() + lower_upper.1.v() * bp(LIMBS as nat)) % rhs.0.v()
-//@-
-{
-    unimplemented!()
-}
-}
-//@@ end
-//@@ fn src/uint/div.rs | impl<const LIMBS: usize> Uint<LIMBS> | rem2k_vartime | stub | props C02 C11
-impl<const LIMBS: usize> Uint<LIMBS> {
-#[verifier::external_body]
-pub const fn rem2k_vartime(&self, k: u32) -> (ret__: Self)
-//@+
-    requires 1 <= LIMBS < 0x400_0000
-    ensures ret__.v() == self.v() % p2(k as nat)
 //@-
 {
     unimplemented!()
